@@ -725,11 +725,11 @@ theorem checkOracle_sound [DecidableEq E] (P : Parser E) (items : List (Item E))
 
 def isLetter (c : Char) : Bool := 97 ≤ c.toNat && c.toNat ≤ 122
 
-/-- children of the toy stream element up to the closing tag, which must end the text -/
+/-- children of the toy stream element up to the closing tag, after which only blanks may follow -/
 def toyKids : Nat → List Char → Option (List (List Char))
   | 0, _ => none
   | f + 1, l =>
-    if l = closeTag then some []
+    if closeTag.isPrefixOf l && (l.drop closeTag.length).all (fun c => c == ' ') then some []
     else
       match l with
       | ' ' :: r => toyKids f r
